@@ -307,6 +307,9 @@ func runC04(c *eng.Ctx) {
 	c.Rule("R16.8", "K6")
 	ruleStreamConfigPlumbing(c, "MinIsr")
 	c.Floor(2)
+	// ---- R15.8 (shared) the configuration keys this property's switches hang on reach their fields
+	ruleConfigWiring(c, "R15.8")
+
 }
 
 // indexOfLoad returns the IndexAddr whose element v loads.
